@@ -50,6 +50,24 @@ class Source:
             yield x
 
 
+class PlainSource:
+    """a builtin container as target (nothing to count: pulls stays 0)"""
+    pulls = 0
+    MAKE = {'empty-list': list, 'empty-tuple': tuple, 'empty-dict': dict, 'empty-range': lambda: range(0), 'list-six': lambda: list(range(6)),
+            'tuple-six': lambda: tuple(range(6))}
+
+    def __init__(self, kind):
+        self.kind = kind
+        self.target = self.MAKE[kind]()
+
+    def __iter__(self):
+        return iter(self.target)
+
+
+def mk_source(kind):
+    return PlainSource(kind) if kind in PlainSource.MAKE else Source(kind)
+
+
 def gt2(x):
     return x > 2
 
@@ -167,14 +185,14 @@ def ref_pipeline(source, base, stages):
 
 def run_pipeline(case):
     src_kind, base, stages = case
-    rsrc = Source(src_kind)
+    rsrc = mk_source(src_kind)
     want = trace(lambda: ref_pipeline(rsrc, base, stages), rsrc)
     spec = build_spec(base, stages)
-    isrc = Source(src_kind)
-    got = trace(lambda: glom(isrc, spec), isrc)
+    isrc = mk_source(src_kind)
+    got = trace(lambda: glom(getattr(isrc, 'target', isrc), spec), isrc)
     where = {'spec': repr(spec), 'source': src_kind}
-    isrc2 = Source(src_kind)
-    again = trace(lambda: glom(isrc2, spec), isrc2)      # the same spec OBJECT a second time: nothing may be carried over
+    isrc2 = mk_source(src_kind)
+    again = trace(lambda: glom(getattr(isrc2, 'target', isrc2), spec), isrc2)      # the same spec OBJECT a second time: nothing may be carried over
     if [x[0] for x in again] != [x[0] for x in got]:
         return R({'expected': 'second evaluation of the same spec object equals the first: %r' % ([x[0] for x in got],),
                   'observed': repr([x[0] for x in again]), **where}, 'second-evaluation')
@@ -251,9 +269,11 @@ def gen_pipelines(tier):
     if tier != 'quick':
         last = ['map-dbl', 'filter-odd', 'slice-1-4', 'chunked-2', 'windowed-2', 'unique', 'flatten', 'takewhile-lt3']
         seqs += [s + (l,) for s in itertools.product(STAGE_NAMES, repeat=3) for l in last]
-    for src in ('empty', 'six', 'inf'):
+    for src in ('empty', 'six', 'inf') + tuple(PlainSource.MAKE):
         for base in BASES:
             if tier == 'quick' and src == 'empty' and base != 'T':
+                continue
+            if src in PlainSource.MAKE and (base != 'T' or (src.endswith('six') and tier == 'quick')):
                 continue
             for s in seqs:
                 if tier == 'quick' and len(s) == 3 and base in ('sentinel-inc', 'stop4') and src != 'six':
@@ -381,7 +401,7 @@ def subs(tier, only=None):
     out = [
         Sub('pipelines', gen_pipelines(tier), run_pipeline,
             rule='case = (source, base sub-spec, stage sequence); first 5 outputs and pull counts vs the itertools/boltons composition',
-            min_nontrivial=5000, min_outcomes=3, required_tags=STAGE_NAMES + list(BASES) + ['empty', 'six', 'inf']),
+            min_nontrivial=5000, min_outcomes=3, required_tags=STAGE_NAMES + list(BASES) + ['empty', 'six', 'inf', 'empty-list', 'empty-dict']),
         Sub('terminals', gen_terminals(tier), run_terminal,
             rule='case = (source, base, stage sequence of length <= 2, all() | first(key, default))', min_nontrivial=1000, min_outcomes=2,
             required_tags=['all', 'first']),
